@@ -107,6 +107,9 @@ pub struct SimInner {
     pub consumed: u64,
     /// Forced results for the probe start jitter.
     pub jitter: VecDeque<u64>,
+    /// Used when the queue is empty (makes the schedule independent of the order in
+    /// which interfaces happen to be visited).
+    pub jitter_const: Option<u64>,
     /// Jitter values actually handed out: (time, value).
     pub jitter_log: Vec<(u64, u64)>,
     pub loop_v4: bool,
@@ -168,6 +171,7 @@ impl SimCtx {
                 ingress_v6: VecDeque::new(),
                 consumed: 0,
                 jitter: VecDeque::new(),
+                jitter_const: None,
                 jitter_log: Vec::new(),
                 loop_v4: true,
                 loop_v6: true,
@@ -707,8 +711,9 @@ pub mod fastrand_shim {
         if let Some(ctx) = super::current() {
             let t = ctx.clock.load(Ordering::SeqCst);
             let mut g = ctx.lock();
-            let v = match g.jitter.pop_front() {
-                Some(v) if range.contains(&v) => v,
+            let v = match (g.jitter.pop_front(), g.jitter_const) {
+                (Some(v), _) if range.contains(&v) => v,
+                (_, Some(v)) if range.contains(&v) => v,
                 _ => fastrand::u64(range),
             };
             g.jitter_log.push((t, v));
